@@ -187,6 +187,39 @@ Proof.
     destruct (contains x _), (contains y _), (rcontains (replace i all_rce a) t), (rcontains (replace i all_rce b) t); reflexivity.
 Qed.
 
+(* ---- RemoveOverlap's recursion terminates: columns + 1 levels suffice ---- *)
+Fixpoint ndiff (a b : range) : nat :=
+  match a, b with
+  | x :: a', y :: b' => (if rce_equals x y then 0 else 1) + ndiff a' b'
+  | _, _ => 0
+  end.
+Lemma ndiff_le a b : ndiff a b <= length a.
+Proof. revert b. induction a as [|x a IH]; intros [|y b]; cbn; try lia. specialize (IH b). destruct (rce_equals x y); lia. Qed.
+Lemma ndiff_replace a b i c : first_diff a b = Some i -> S (ndiff (replace i c a) (replace i c b)) = ndiff a b.
+Proof.
+  revert b i. induction a as [|x a IH]; intros [|y b] i; cbn [first_diff]; try discriminate.
+  destruct (rce_equals x y) eqn:E.
+  - destruct (first_diff a b) as [j|] eqn:F; try discriminate. intros [= <-]. cbn [replace ndiff]. rewrite E.
+    cbn. f_equal. rewrite <- (IH b j F). reflexivity.
+  - intros [= <-]. cbn [replace ndiff]. rewrite E, (proj2 (rce_equals_eq c c) eq_refl). reflexivity.
+Qed.
+Lemma remove_overlap_fuel fuel : forall a b, ndiff a b < fuel -> remove_overlap fuel a b <> None.
+Proof.
+  induction fuel as [|f IH]; intros a b L; [lia|]. cbn [remove_overlap].
+  destruct (try_merge a b); [discriminate|]. destruct (negb (r_overlaps a b)); [discriminate|].
+  destruct (first_diff a b) as [i|] eqn:F; [|discriminate].
+  set (ov := fst (overlaps (nth i a empty_rce) (nth i b empty_rce))).
+  pose proof (ndiff_replace a b i ov F) as D.
+  specialize (IH (replace i ov a) (replace i ov b) ltac:(lia)).
+  destruct (remove_overlap f (replace i ov a) (replace i ov b)) as [[rs ok]|]; [discriminate|congruence].
+Qed.
+Theorem remove_overlap_terminates a b : exists out ok, remove_overlap_top a b = Some (out, ok).
+Proof.
+  unfold remove_overlap_top. pose proof (remove_overlap_fuel (S (length a)) a b) as H.
+  pose proof (ndiff_le a b). destruct (remove_overlap (S (length a)) a b) as [[out ok]|]; [eauto|].
+  exfalso. apply H; [lia|reflexivity].
+Qed.
+
 (* the pieces are pairwise disjoint when no column of a or b is empty at the cut level *)
 Definition no_empty_col (a : range) : bool := forallb (fun c => negb (is_empty c)) a.
 Definition disjoint (p q : range) : Prop := forall t, rcontains p t && rcontains q t = false.
@@ -203,16 +236,55 @@ Proof.
   - apply IH. apply orb_false_iff in H. tauto.
 Qed.
 
-(* ---- IntersectRanges: what the code returns, and that it is not the intersection ---- *)
-Lemma intersect_ranges_two a b : length a = length b -> a <> [] -> intersect_ranges [a; b] = Some a.
+(* ---- IntersectRanges ---- *)
+Lemma intersect_cols_length a b r : length a = length b -> intersect_cols a b = Some r -> length r = length a.
 Proof.
-  intros L NE. destruct a as [|x a]; [congruence|]. destruct b as [|y b]; [discriminate|]. cbn [intersect_ranges length Nat.eqb intersect_ranges_rest].
-  assert (Nat.eqb (length (r_intersect (x :: a) (y :: b))) 0 = false) as ->; [|reflexivity].
-  unfold r_intersect. rewrite L, Nat.eqb_refl. cbn [negb].
-  pose proof (intersect_cols_exact (x :: a) (y :: b) [] L) as H.
-  destruct (intersect_cols (x :: a) (y :: b)) as [r|] eqn:E; [|reflexivity].
-  destruct r; [|reflexivity]. cbn in E. destruct (try_intersect x y) as [i [|]]; try discriminate.
-  all: try (destruct (intersect_cols a b); discriminate).
+  revert b r. induction a as [|x a IH]; intros [|y b] r L; cbn in L; try discriminate; cbn [intersect_cols].
+  - intros [= <-]. reflexivity.
+  - destruct (try_intersect x y) as [i [|]]; try discriminate.
+    destruct (intersect_cols a b) as [r'|] eqn:E; try discriminate. intros [= <-]. cbn. f_equal. apply (IH b); [lia|exact E].
+Qed.
+Lemma r_intersect_length a b : length a = length b -> length (r_intersect a b) = length a.
+Proof.
+  intros L. unfold r_intersect. rewrite L, Nat.eqb_refl. cbn [negb]. rewrite <- L.
+  destruct (intersect_cols a b) eqn:E; [eapply intersect_cols_length; eauto|]. unfold as_empty. apply map_length.
+Qed.
+(* the arguments that take part: those of non-zero length *)
+Definition all_contain (rs : list range) (t : tuple) : bool :=
+  forallb (fun x => Nat.eqb (length x) 0 || rcontains x t) rs.
+Definition lens_ok (n : nat) (rs : list range) : Prop := Forall (fun x => length x = 0 \/ length x = n) rs.
+Lemma intersect_ranges_rest_exact n : n <> 0 -> forall rest rang, length rang = n -> lens_ok n rest ->
+  exists r, intersect_ranges_rest rang rest = Some r /\ length r = n /\
+            forall t, rcontains r t = rcontains rang t && all_contain rest t.
+Proof.
+  intros NZ. induction rest as [|rc rest IH]; intros rang L OK; cbn [intersect_ranges_rest].
+  - rewrite L. destruct (Nat.eqb_spec n 0); [congruence|]. exists rang. repeat split; auto. intros t. cbn. rewrite andb_true_r. reflexivity.
+  - inversion OK as [|? ? H1 H2]; subst. destruct H1 as [H1|H1].
+    + rewrite H1. cbn [Nat.eqb]. destruct (IH rang eq_refl H2) as [r [E [Lr Hr]]]. exists r. repeat split; auto.
+      intros t. rewrite Hr. cbn. rewrite H1. reflexivity.
+    + destruct (Nat.eqb_spec (length rc) 0) as [Z|_]; [lia|].
+      assert (LL : length rang = length rc) by lia.
+      rewrite (r_intersect_length rang rc LL). destruct (Nat.eqb_spec (length rang) 0) as [Z|_]; [lia|].
+      destruct (IH (r_intersect rang rc) (r_intersect_length rang rc LL) H2) as [r [E [Lr Hr]]].
+      exists r. repeat split; auto. intros t. rewrite Hr, (r_intersect_exact rang rc t LL). cbn.
+      destruct (Nat.eqb_spec (length rc) 0); [lia|]. cbn. rewrite andb_assoc. reflexivity.
+Qed.
+Theorem intersect_ranges_exact n rs : n <> 0 -> lens_ok n rs -> Exists (fun x => length x = n) rs ->
+  exists r, intersect_ranges rs = Some r /\ length r = n /\ forall t, rcontains r t = all_contain rs t.
+Proof.
+  intros NZ. induction rs as [|rc rs IH]; intros OK EX; [inversion EX|]. cbn [intersect_ranges].
+  inversion OK as [|? ? H1 H2]; subst. destruct (Nat.eqb_spec (length rc) 0) as [Z|NZ'].
+  - assert (EX' : Exists (fun x => length x = n) rs) by (inversion EX; subst; [lia|assumption]).
+    destruct (IH H2 EX') as [r [E [Lr Hr]]]. exists r. repeat split; auto. intros t. rewrite Hr. cbn.
+    rewrite Z. reflexivity.
+  - assert (L : length rc = n) by (destruct H1; [lia|assumption]).
+    destruct (intersect_ranges_rest_exact n NZ rs rc L H2) as [r [E [Lr Hr]]]. exists r. repeat split; auto.
+    intros t. rewrite Hr. cbn. destruct (Nat.eqb_spec (length rc) 0); [lia|]. reflexivity.
+Qed.
+Theorem intersect_ranges_none_when_all_zero rs : Forall (fun x => length x = 0) rs -> intersect_ranges rs = None.
+Proof.
+  induction rs as [|rc rs IH]; intros H; [reflexivity|]. inversion H; subst. cbn [intersect_ranges].
+  replace (length rc) with 0 by auto. cbn. auto.
 Qed.
 
 (* ---- RemoveOverlappingRanges ---- *)
